@@ -139,7 +139,7 @@ func modelAgrees(prop string, d *Decls, ast *Node, argv []string, out *Outcome, 
 		return nil
 	}
 	if out.Accept != cl.Accept {
-		if out.Accept == cl.Greedy {
+		if out.Accept == cl.Greedy && KnownClassAny(F3Class) {
 			st.Class("model-known:" + F3Class)
 			return nil
 		}
